@@ -46,7 +46,7 @@ def run(tier, seed):
     rep = Report("C12", tier, seed, "other", "./vf check C12 --tier " + tier)
     rep.add_case_results(run_cases([("contracts.enums", "make_enum", (w, e)) for w in ("delegation", "equality", "arrays") for e in "<>"]), "T1")
     num = Bounded("auto-numbering", f"{len(DECLS)} declaration shapes (gaps, duplicates, expressions over earlier members, signed/unsigned storage) x both parsers")
-    pres = Bounded("value-preservation", "every 8-bit underlying value, boundary values of wider storage; scalar, array, null-terminated array and bit-field use; two parses compared")
+    pres = Bounded("value-preservation", "every 8-bit underlying value, boundary values of wider storage; scalar, array, null-terminated array, bit-field use, arrays of 63/64/65/300 elements (standalone and expression-sized, both readers); two parses compared")
     for di, (kind, typ, members) in enumerate(DECLS):
         want = reference_values(kind, members)
         for legacy in (False, True):
@@ -75,6 +75,11 @@ def run(tier, seed):
             hi = 1 << (8 * n)
             base = [0, 1, 2, hi // 2 - 1, hi // 2, hi // 2 + 1, hi - 2, hi - 1] + [int(v) for v in want.values() if 0 <= v < hi]
             values = sorted({(v - hi if signed and v >= hi // 2 else v) for v in base} | {v for v in want.values()})
+        values = list(values)
+        long_values = set(values[:3] + values[-2:] + [int(x) for x in want.values()])
+        csd, csdi = cstruct(), cstruct()
+        csd.load(render(kind, typ, members, "T") + " struct D { uint16 n; T d[n]; };")
+        csdi.load(render(kind, typ, members, "T") + " struct D { uint16 n; T d[n]; };", compiled=False)
         for v in values:
             raw = v.to_bytes(n, "little", signed=signed)
             try:
@@ -92,6 +97,17 @@ def run(tier, seed):
                 if v != 0:
                     checks["null-terminated"] = [x.value for x in s.c] == [v]
                 checks["struct-dumps"] = s.dumps()[: 3 * n] == raw * 3
+                if v in long_values:
+                    # long arrays (bulk paths): every element is indistinguishable from the scalar parse of the same bytes
+                    for cnt in (63, 64, 65, 300):
+                        arr = T[cnt](raw * cnt)
+                        checks[f"array[{cnt}]-elements-as-scalar"] = len(arr) == cnt and all(
+                            x == a and hash(x) == hash(a) and x.name == a.name and x.value == v for x in arr)
+                        for comp in (csd, csdi):
+                            d = comp.D(cnt.to_bytes(2, "little") + raw * cnt)
+                            a2 = comp.T(raw)
+                            checks[f"dynamic-array[{cnt}]-{'compiled' if comp is csd else 'interpreted'}"] = len(d.d) == cnt and all(
+                                x == a2 and hash(x) == hash(a2) and x.name == a2.name and x.name == a.name for x in d.d)
             except Exception as e:  # noqa: BLE001
                 checks = {f"raises {type(e).__name__}: {e}": False}
             bad = [k for k, ok in checks.items() if not ok]
